@@ -53,11 +53,12 @@ VARIABLES lane, prog,
           flk, fbla, mlk, mbla,
           hslot, nextSlot, slotCount, slots,
           nkey, nnext, bucketCount, buckets, size, maxSize,
-          pc, ip, slot, lkh, sfrom, bkt, found, li, rets
+          pc, ip, slot, lkh, sfrom, bkt, found, li, rets,
+          inmap         \* ghost: the nodes linked into the bucket lists (= InMap below, invariant GhostOK)
 cfgv == <<lane, prog>>
 locks == <<flk, fbla, mlk, mbla>>
 flyv == <<hslot, nextSlot, slotCount, slots>>
-mapv == <<nkey, nnext, bucketCount, buckets, size, maxSize>>
+mapv == <<nkey, nnext, bucketCount, buckets, size, maxSize, inmap>>
 locv == <<ip, slot, lkh, sfrom, bkt, found, li, rets>>
 vars == <<cfgv, locks, flyv, mapv, pc, locv>>
 
@@ -69,6 +70,7 @@ Min(S) == CHOOSE x \in S : \A y \in S : x <= y
 RECURSIVE Chain(_, _)
 Chain(h, nxt) == IF h = NULL THEN <<>> ELSE <<h>> \o Chain(nxt[h], nxt)
 Range(s) == {s[k] : k \in 1..Len(s)}
+Last(s) == s[Len(s)]
 \* the search loop of get(): first node in [h .. stop) holding key v, NULL if none
 RECURSIVE Search(_, _, _)
 Search(h, stop, v) == IF h = stop \/ h = NULL THEN NULL
@@ -82,7 +84,7 @@ Init == /\ \E s \in Scenarios : lane = s.lane /\ prog = s.prog
         /\ slots = [i \in 0..InitCap-1 |-> NULL]
         /\ nkey = [n \in Nodes |-> 0] /\ nnext = [n \in Nodes |-> NULL]
         /\ bucketCount = InitBuckets /\ buckets = [b \in 0..InitBuckets-1 |-> NULL]
-        /\ size = 0 /\ maxSize = InitMaxSize
+        /\ size = 0 /\ maxSize = InitMaxSize /\ inmap = {}
         /\ pc = [t \in Threads |-> "next"] /\ ip = [t \in Threads |-> 1]
         /\ slot = [t \in Threads |-> NULL] /\ lkh = [t \in Threads |-> NULL] /\ sfrom = [t \in Threads |-> NULL]
         /\ bkt = [t \in Threads |-> 0] /\ found = [t \in Threads |-> NULL] /\ li = [t \in Threads |-> 0]
@@ -216,23 +218,24 @@ SearchRound(t, h, stop) ==
 \* "map.head.load": LastKnownHead = Buckets[Bucket]; SearchedFrom = nullptr; first search round
 MLoad(t) == /\ pc[t] = "m_load"
             /\ SearchRound(t, buckets[bkt[t]], NULL)
-            /\ UNCHANGED <<cfgv, locks, flyv, bucketCount, buckets, size, maxSize, ip, slot, bkt, li, rets>>
+            /\ UNCHANGED <<cfgv, locks, flyv, bucketCount, buckets, size, maxSize, inmap, ip, slot, bkt, li, rets>>
 
 \* "map.head.cas": compare_exchange_strong(LastKnownHead, Node); success -> "map.size.inc"; failure -> next round
 MCas(t) == /\ pc[t] = "m_cas"
            /\ IF buckets[bkt[t]] = lkh[t]
                 THEN /\ buckets' = [buckets EXCEPT ![bkt[t]] = hslot[H(t)]]
+                     /\ inmap' = inmap \cup {hslot[H(t)]}
                      /\ Goto(t, "m_inc")
                      /\ UNCHANGED <<lkh, sfrom, found, nkey, nnext>>
                 ELSE /\ SearchRound(t, buckets[bkt[t]], sfrom[t])
-                     /\ UNCHANGED buckets
+                     /\ UNCHANGED <<buckets, inmap>>
            /\ UNCHANGED <<cfgv, locks, flyv, bucketCount, size, maxSize, ip, slot, bkt, li, rets>>
 
 \* "map.size.inc": NewSize = ++Size; if (NewSize > MaxSizeBeforeGrow) tryGrow(H) ["lanes.bla.try"] else Done
 MInc(t) == /\ pc[t] = "m_inc"
            /\ size' = size + 1
            /\ Goto(t, IF size + 1 > maxSize THEN "m_blatry" ELSE "m_unlock")
-           /\ UNCHANGED <<cfgv, locks, flyv, nkey, nnext, bucketCount, buckets, maxSize, locv>>
+           /\ UNCHANGED <<cfgv, locks, flyv, nkey, nnext, bucketCount, buckets, maxSize, inmap, locv>>
 
 MBlaTry(t) == /\ pc[t] = "m_blatry"
               /\ IF mbla = 0 THEN mbla' = t /\ Goto(t, "m_growcheck")
@@ -273,14 +276,14 @@ MGrowCheck(t) ==
            THEN GrowMap /\ Goto(t, "m_g_unbla") /\ UNCHANGED li
            ELSE /\ li' = [li EXCEPT ![t] = Min(Others(H(t)))] /\ Goto(t, "m_lockall")
                 /\ UNCHANGED <<nnext, bucketCount, buckets, maxSize>>
-    /\ UNCHANGED <<cfgv, locks, flyv, nkey, size, ip, slot, lkh, sfrom, bkt, found, rets>>
+    /\ UNCHANGED <<cfgv, locks, flyv, nkey, size, inmap, ip, slot, lkh, sfrom, bkt, found, rets>>
 MLockAll(t) ==
     /\ pc[t] = "m_lockall" /\ mlk[li[t]] = 0
     /\ mlk' = [mlk EXCEPT ![li[t]] = t]
     /\ LET rest == {l \in Others(H(t)) : l > li[t]} IN
          IF rest # {} THEN /\ li' = [li EXCEPT ![t] = Min(rest)] /\ UNCHANGED <<pc, nnext, bucketCount, buckets, maxSize>>
                       ELSE /\ li' = [li EXCEPT ![t] = 0] /\ GrowMap /\ Goto(t, "m_g_unbla")
-    /\ UNCHANGED <<cfgv, flk, fbla, mbla, flyv, nkey, size, ip, slot, lkh, sfrom, bkt, found, rets>>
+    /\ UNCHANGED <<cfgv, flk, fbla, mbla, flyv, nkey, size, inmap, ip, slot, lkh, sfrom, bkt, found, rets>>
 MNgUnbla(t) == /\ pc[t] = "m_ng_unbla"
                /\ mbla' = 0
                /\ Goto(t, "m_unlock")
@@ -356,7 +359,9 @@ PCs == {"next", "f_guard", "f_inc", "f_load", "f_blatry", "f_d_unlock", "f_d_bla
 PostCas == {"m_inc", "m_blatry", "m_d_unlock", "m_d_bla", "m_d_relock", "m_growcheck", "m_lockall", "m_ng_unbla",
             "m_g_unbla"}
 InMap == UNION {Range(Chain(buckets[b], nnext)) : b \in 0..bucketCount-1}
-Completed == {<<t, k>> : t \in Threads, k \in 1..MaxNode} \cap {o \in Threads \X (1..MaxNode) : o[2] <= Len(rets[o[1]])}
+\* the ghost is exactly the content of the bucket lists; the properties below are stated over it
+GhostOK == inmap = InMap
+Completed == {o \in Threads \X (1..MaxNode) : o[2] <= Len(rets[o[1]])}
 ValOf(o) == prog[o[1]][o[2]]
 IdxOf(o) == rets[o[1]][o[2]][1]
 InsOf(o) == rets[o[1]][o[2]][2]
@@ -376,14 +381,14 @@ NoNil == Reserve => \A a \in Completed : IdxOf(a) # 0
 OneInserter == /\ \A a, b \in Completed : (ValOf(a) = ValOf(b) /\ InsOf(a) /\ InsOf(b)) => a = b
                /\ AllDone => \A a \in Completed : \E b \in Completed : ValOf(b) = ValOf(a) /\ InsOf(b)
 \* the map holds each key once, in the bucket of its hash
-MapOK == /\ \A m, n \in InMap : nkey[m] = nkey[n] => m = n
+MapOK == /\ \A m, n \in inmap : nkey[m] = nkey[n] => m = n
          /\ \A b \in 0..bucketCount-1 : \A n \in Range(Chain(buckets[b], nnext)) : Hash(nkey[n]) % bucketCount = b
-         /\ size <= Cardinality(InMap)
-         /\ Cardinality(InMap) <= size + Cardinality({t \in Threads : pc[t] = "m_inc"})
+         /\ size <= Cardinality(inmap)
+         /\ Cardinality(inmap) <= size + Cardinality({t \in Threads : pc[t] = "m_inc"})
 \* map and slots agree: a node in the map is published in its slot
-SlotsAgree == \A n \in InMap : n < slotCount /\ slots[n] = n
+SlotsAgree == \A n \in inmap : n < slotCount /\ slots[n] = n
 \* a slot reserved by a lane and not yet consumed is not in the map, lanes reserve different slots
-ReservedOK == /\ \A l \in Lanes : (hslot[l] # NULL /\ hslot[l] \in InMap) =>
+ReservedOK == /\ \A l \in Lanes : (hslot[l] # NULL /\ hslot[l] \in inmap) =>
                       \E t \in Threads : lane[t] = l /\ found[t] = NULL /\ pc[t] \in PostCas \cup {"m_unlock"}
               /\ \A l, k \in Lanes : (l # k /\ hslot[l] # NULL) => hslot[l] # hslot[k]
               /\ \A l \in Lanes : hslot[l] # NULL => hslot[l] < nextSlot
@@ -395,8 +400,8 @@ QuiescentI == \A t \in Threads : pc[t] = "next"
 IterOK == QuiescentI =>
             LET it == IterSlots IN
             /\ \A k \in 1..Len(it) : it[k] < slotCount /\ slots[it[k]] # NULL
-            /\ Range(it) = InMap
-            /\ Len(it) = Cardinality(InMap)
+            /\ Range(it) = inmap
+            /\ Len(it) = Cardinality(inmap)
 \* the mutexes are released when nobody is inside a call
 LocksFree == QuiescentI => /\ fbla = 0 /\ mbla = 0 /\ \A l \in Lanes : flk[l] = 0 /\ mlk[l] = 0
 
@@ -416,8 +421,8 @@ AbsOp(t) == IF pc[t] = "next" THEN [st |-> "idle"]
 Abs == INSTANCE InternAbs WITH
           Indices <- Nodes,
           NilIndices <- IF Reserve THEN {0} ELSE {},
-          enc <- [v \in {nkey[n] : n \in InMap} |-> CHOOSE n \in InMap : nkey[n] = v],
-          dec <- [n \in InMap |-> nkey[n]],
+          enc <- [v \in {nkey[n] : n \in inmap} |-> CHOOSE n \in inmap : nkey[n] = v],
+          dec <- [n \in inmap |-> nkey[n]],
           op <- [t \in Threads |-> AbsOp(t)]
 Refines == Abs!ASpec
 \* the result returned is the one the linearization fixed
